@@ -33,7 +33,8 @@ Split(str) == SplitFrom(str, 1, <<>>)
 
 InvalidIndex == "InvalidIndex"
 ParseHand(n, str) == LET toks == Split(str) IN
-                     IF Len(toks) < n THEN InvalidIndex ELSE [i \in 1..n |-> ParseToken(toks[i])]
+                     IF Len(toks) < n THEN [kind |-> InvalidIndex, words |-> <<>>]
+                     ELSE [kind |-> "ok", words |-> [i \in 1..n |-> ParseToken(toks[i])]]
 (* BinaryCard::from_index: every token is folded in.                       *)
 ParseSetBits(str) == LET toks == Split(str) IN
                      {BitOfCard(RankOfCard(ParseToken(toks[i])), SuitOfCard(ParseToken(toks[i]))) :
